@@ -88,7 +88,7 @@ def execute(script):
     env.setup()
     env.use_fast_scrypt(True)
     from engines.ledger import LedgerSim
-    from seams.net import Kernel, SimNode, Shims, EPOCH
+    from seams.net import Kernel, SimNode, Shims, EPOCH, EventStorm
     from refmodel import rules
     from world import ledger as W
     import skepticoin.blockstore as bs
@@ -152,6 +152,7 @@ def execute(script):
         return cs
 
     k = Kernel(script.get('seed', 0), cfg.get('profile'))
+    k.EVENT_BUDGET = 400_000 + 3_000 * len(sim.stored)      # a healthy run needs a few thousand events
     trace = k.trace
     sh = Shims(k)
     sh.install()
@@ -217,6 +218,8 @@ def execute(script):
                         key[0], key[2], key[3].hex()[:12], c))
                     return True
             return False
+
+        k.guard = lambda: any(c > 1 for c in relays.values()) or any(nd.loop_error for nd in nodes)
 
         # ---- fault phase
         for f in script['ops']:
@@ -448,6 +451,9 @@ def execute(script):
         res.distinct.add('net:%d:%s:%s:%s:%s' % (n, cfg['topology'], sorted(min(x, 11) // 3 for x in forkd), cfg['faulty'], cfg['fresh']))
         res.sample = {'nodes': n, 'topology': cfg['topology'], 'branch_lengths': forkd, 'prefix': cfg['prefix'],
                       'virtual_s_to_converge': (k.now - t_faults_stop) // 1000}
+    except EventStorm as e:
+        if not res.violations:
+            res.violate(PROP, 'C10/relay-traffic-does-not-stop', 'traffic feeds on itself: %s' % e)
     finally:
         res.virtual_s += k.now / 1000.0
         res.events += k.steps
